@@ -365,6 +365,13 @@ impl<T: HashAlgorithm> Nomt<T> {
             .parent_root()
             .unwrap_or_else(|| self.root().into_inner());
 
+        // A chain of overlays describes changes on top of one particular committed state. If the
+        // store has moved away from it, what this session computes from the store's pages no longer
+        // belongs to the chain: such a session must not produce a changeset.
+        let base_superseded = live_overlay
+            .base_root()
+            .map_or(false, |base| base != self.root().into_inner());
+
         Session {
             store,
             merkle_updater: self.merkle_update_pool.begin::<T>(
@@ -394,6 +401,7 @@ impl<T: HashAlgorithm> Nomt<T> {
                 verif_sid,
             ),
             prev_root: Root(prev_root),
+            base_superseded,
             _marker: std::marker::PhantomData,
         }
     }
@@ -589,6 +597,8 @@ pub struct Session<T> {
     #[cfg(nomt_verif)]
     verif_read_post: crate::verif_hook::LockDrop,
     prev_root: Root,
+    // INTERNAL: the overlay chain this session builds on does not stand on the committed state.
+    base_superseded: bool,
     _marker: std::marker::PhantomData<T>,
 }
 
@@ -718,6 +728,10 @@ impl<T: HashAlgorithm> Session<T> {
                 );
             }
         }
+        if self.base_superseded {
+            anyhow::bail!("the overlay chain of this session is not based on the committed state");
+        }
+
         let rollback_delta = self
             .rollback_delta
             .take()
